@@ -336,7 +336,7 @@ class Equation:
 
         enum_metrics = self.metrics is None
 
-        return (enum_int or enum_st) and enum_metrics
+        return enum_int or (enum_st and enum_metrics)
 
     @staticmethod
     def __frac_coords(sexpr: Basic) -> bool:
